@@ -313,4 +313,250 @@ theorem lse_normalizes (x : Vec ℝ (n + 1)) : ∑ i, Real.exp (x i - logSumExp 
   simp_rw [Real.exp_sub, Real.exp_log hpos]
   rw [← Finset.sum_div, div_self hpos.ne']
 
+/-! ### Round 4: the batch as a map over its columns; log-sum-exp as a symmetric function of all its entries -/
+
+/-- Batch independence of the direct (log-)density: the value for a column depends on that column
+    only — two batches (of any two sizes) that hold the same point in columns `c` and `c'` give the same
+    value there.  (Appending, removing or permuting other columns, or splitting the batch into chunks,
+    changes nothing.) -/
+theorem logDensity_col_congr {b' : Nat} (inv : InvFn ℝ) (x : Mat ℝ d b) (x' : Mat ℝ d b') (m : Vec ℝ d) (S : Mat ℝ d d)
+    (c : Fin b) (c' : Fin b') (h : ∀ i, x i c = x' i c') :
+    logDensity inv x m S c = logDensity inv x' m S c' ∧ density inv x m S c = density inv x' m S c' := by
+  have hcol : Mat.col (Mat.eval (diffCols x m)) c = Mat.col (Mat.eval (diffCols x' m)) c' := by
+    ext i; simp [Mat.col, diffCols, h i]
+  have e : logDensity inv x m S c = logDensity inv x' m S c' := by
+    simp only [logDensity, Vec.of_apply, hcol]
+  exact ⟨e, by simp only [density, Vec.of_apply, e]⟩
+
+/-- The batch call is the map of the one-column call over the columns (`logDensityCols`: one call per column). -/
+theorem logDensity_batch_map (inv : InvFn ℝ) (x : Mat ℝ d b) (m : Vec ℝ d) (S : Mat ℝ d d) :
+    logDensity inv x m S = logDensityCols inv x m S := by
+  ext c
+  simp only [logDensityCols, Vec.of_apply]
+  exact (logDensity_col_congr inv x (colOfBatch x c) m S c 0 (fun i => by simp [colOfBatch])).1
+
+/-- Batch independence of the factorised (log-)density; the determinant it forms does not depend on
+    the batch at all. -/
+theorem uvr_col_congr {b' : Nat} (inv : InvFn ℝ) (x : Mat ℝ (nb * bs) b) (x' : Mat ℝ (nb * bs) b') (m : Vec ℝ (nb * bs))
+    (U : Mat ℝ (nb * bs) k) (V : Mat ℝ k (nb * bs)) (R : RNoise ℝ nb bs)
+    (c : Fin b) (c' : Fin b') (h : ∀ i, x i c = x' i c') :
+    (uvrAlg inv x m U V R).detS = (uvrAlg inv x' m U V R).detS ∧
+    logDensityUVR inv x m U V R c = logDensityUVR inv x' m U V R c' ∧
+    densityUVR inv x m U V R c = densityUVR inv x' m U V R c' := by
+  have hdet : (uvrAlg inv x m U V R).detS = (uvrAlg inv x' m U V R).detS := by
+    simp only [uvrAlg]
+  have hcol : Mat.col (Mat.eval (diffCols x m)) c = Mat.col (Mat.eval (diffCols x' m)) c' := by
+    ext i; simp [Mat.col, diffCols, h i]
+  have hrow : Mat.row (mulInvR (Mat.eval (diffCols x m)).transpose (R.invBlocks inv)) c
+      = Mat.row (mulInvR (Mat.eval (diffCols x' m)).transpose (R.invBlocks inv)) c' := by
+    ext p; simp [Mat.row, mulInvR, diffCols, h]
+  have hwd : (uvrAlg inv x m U V R).wd c = (uvrAlg inv x' m U V R).wd c' := by
+    simp only [uvrAlg, Vec.eval_eq, Vec.of_apply, hcol, hrow]
+  have e : logDensityUVR inv x m U V R c = logDensityUVR inv x' m U V R c' := by
+    simp only [logDensityUVR, Vec.of_apply, hdet, hwd]
+  exact ⟨hdet, e, by simp only [densityUVR, Vec.of_apply, e]⟩
+
+theorem uvr_batch_map (inv : InvFn ℝ) (x : Mat ℝ (nb * bs) b) (m : Vec ℝ (nb * bs))
+    (U : Mat ℝ (nb * bs) k) (V : Mat ℝ k (nb * bs)) (R : RNoise ℝ nb bs) :
+    logDensityUVR inv x m U V R = logDensityUVRCols inv x m U V R := by
+  ext c
+  simp only [logDensityUVRCols, Vec.of_apply]
+  exact (uvr_col_congr inv x (colOfBatch x c) m U V R c 0 (fun i => by simp [colOfBatch])).2.1
+
+/-- Only `S = U V + R` has to be positive definite, not the summand `R`: the two factors of the
+    determinant the code forms, `det R` and `det(I + V R⁻¹ U)`, always have the same sign, and they may
+    both be negative.  (The logarithm may be taken of their product only, never of the factors.) -/
+theorem uvr_factor_signs (inv : InvFn ℝ) (x : Mat ℝ (nb * bs) b) (m : Vec ℝ (nb * bs))
+    (U : Mat ℝ (nb * bs) k) (V : Mat ℝ k (nb * bs)) (R : RNoise ℝ nb bs)
+    (hR : ∀ i, InvOK inv (R.block i)) (hM : InvOK inv (uvrM inv U V R))
+    (hPD : (toM (assembleS U V R)).PosDef) :
+    (uvrAlg inv x m U V R).detS = R.det * Mat.detLU k (uvrM inv U V R) ∧
+    (R.det < 0 ↔ Mat.detLU k (uvrM inv U V R) < 0) ∧ (0 < R.det ↔ 0 < Mat.detLU k (uvrM inv U V R)) := by
+  have hpos := (uvr_defined inv x m U V R hR hM hPD).2.1
+  have hdef : (uvrAlg inv x m U V R).detS = R.det * Mat.detLU k (uvrM inv U V R) := by
+    simp only [uvrAlg, Mat.eval_eq, uvrM]
+  rw [hdef] at hpos
+  refine ⟨hdef, ?_, ?_⟩
+  · constructor
+    · intro h; by_contra h'
+      have := mul_nonpos_of_nonpos_of_nonneg h.le (not_lt.mp h'); linarith
+    · intro h; by_contra h'
+      have := mul_nonpos_of_nonneg_of_nonpos (not_lt.mp h') h.le; linarith
+  · constructor
+    · intro h; exact (pos_iff_pos_of_mul_pos hpos).mp h
+    · intro h; exact (pos_iff_pos_of_mul_pos hpos).mpr h
+
+/-- `exp(LSE x) = Σ exp xᵢ`: every entry contributes. -/
+theorem lse_exp (x : Vec ℝ (n + 1)) : Real.exp (logSumExp x) = ∑ i, Real.exp (x i) := by
+  rw [lse_eq_log_sum_exp]
+  exact Real.exp_log (Finset.sum_pos (fun i _ => Real.exp_pos _) Finset.univ_nonempty)
+
+/-- The result does not depend on the order of the entries (in particular not on where the maximum —
+    or several equal maxima — stand). -/
+theorem lse_perm (x : Vec ℝ (n + 1)) (σ : Equiv.Perm (Fin (n + 1))) :
+    logSumExp (Vec.of (fun i => x (σ i))) = logSumExp x := by
+  rw [lse_eq_log_sum_exp, lse_eq_log_sum_exp]
+  simp only [Vec.of_apply]
+  rw [Equiv.sum_comp σ (fun i => Real.exp (x i))]
+
+/-- Chunked accumulation: for any split of the index set into a part `A` and the rest, the result is
+    the logarithm of the two partial sums added. -/
+theorem lse_split (x : Vec ℝ (n + 1)) (A : Finset (Fin (n + 1))) :
+    logSumExp x = Real.log (∑ i ∈ A, Real.exp (x i) + ∑ i ∈ Aᶜ, Real.exp (x i)) := by
+  rw [lse_eq_log_sum_exp, Finset.sum_add_sum_compl]
+
+/-- No entry is negligible: leaving out any non-empty set of entries (however far below the maximum)
+    gives a strictly smaller value, and the missing amount is exactly the logarithm of the ratio of the sums. -/
+theorem lse_drop_lt (x : Vec ℝ (n + 1)) (A : Finset (Fin (n + 1))) (hA : A.Nonempty) (hAc : Aᶜ.Nonempty) :
+    Real.log (∑ i ∈ A, Real.exp (x i)) < logSumExp x ∧
+    logSumExp x - Real.log (∑ i ∈ A, Real.exp (x i))
+      = Real.log (1 + (∑ i ∈ Aᶜ, Real.exp (x i)) / (∑ i ∈ A, Real.exp (x i))) := by
+  have hpA : 0 < ∑ i ∈ A, Real.exp (x i) := Finset.sum_pos (fun i _ => Real.exp_pos _) hA
+  have hpAc : 0 < ∑ i ∈ Aᶜ, Real.exp (x i) := Finset.sum_pos (fun i _ => Real.exp_pos _) hAc
+  rw [lse_split x A]
+  refine ⟨Real.log_lt_log hpA (by linarith), ?_⟩
+  rw [← Real.log_div (by positivity) hpA.ne']
+  congr 1
+  field_simp
+
+/-- Ties at the maximum: with `t` entries equal to the maximum the result is at least `max + log t`
+    (each of them contributes `exp 0 = 1` to the shifted sum). -/
+theorem lse_ties (x : Vec ℝ (n + 1)) :
+    1 ≤ (Finset.univ.filter (fun i => x i = vmax x)).card ∧
+    vmax x + Real.log ((Finset.univ.filter (fun i => x i = vmax x)).card : ℝ) ≤ logSumExp x := by
+  rw [logSumExp_real]
+  obtain ⟨-, j, hj⟩ := vmax_spec x
+  have hjT : j ∈ Finset.univ.filter (fun i => x i = vmax x) := by simp [hj.symm]
+  have hcard : 1 ≤ (Finset.univ.filter (fun i => x i = vmax x)).card := Finset.card_pos.mpr ⟨j, hjT⟩
+  have hTpos : (0 : ℝ) < ((Finset.univ.filter (fun i => x i = vmax x)).card : ℝ) := by exact_mod_cast hcard
+  have hsum : ((Finset.univ.filter (fun i => x i = vmax x)).card : ℝ) ≤ ∑ i, Real.exp (x i - vmax x) := by
+    calc ((Finset.univ.filter (fun i => x i = vmax x)).card : ℝ)
+        = ∑ i ∈ Finset.univ.filter (fun i => x i = vmax x), (1 : ℝ) := by simp
+      _ = ∑ i ∈ Finset.univ.filter (fun i => x i = vmax x), Real.exp (x i - vmax x) := by
+          refine Finset.sum_congr rfl (fun i hi => ?_)
+          have : x i = vmax x := (Finset.mem_filter.mp hi).2
+          rw [this, sub_self, Real.exp_zero]
+      _ ≤ ∑ i, Real.exp (x i - vmax x) :=
+          Finset.sum_le_sum_of_subset_of_nonneg (Finset.subset_univ _) (fun i _ _ => (Real.exp_pos _).le)
+  have := Real.log_le_log hTpos hsum
+  exact ⟨hcard, by linarith⟩
+
+/-- All entries equal: `LSE = v + log n` exactly. -/
+theorem lse_all_equal (x : Vec ℝ (n + 1)) (v : ℝ) (h : ∀ i, x i = v) :
+    logSumExp x = v + Real.log (n + 1 : ℕ) := by
+  rw [lse_eq_log_sum_exp]
+  simp only [h, Finset.sum_const, Finset.card_univ, Fintype.card_fin, nsmul_eq_mul]
+  rw [Real.log_mul (by positivity) (Real.exp_pos _).ne', Real.log_exp]
+  ring
+
+/-- Commutation with a constant shift also in the presence of `−∞` entries (IEEE semantics). -/
+theorem lse_neg_inf_shift (x : Vec (Ext ℝ) (n + 1)) (hx : ∀ i, x i ≠ Ext.nan) (hfin : ∃ i a, x i = Ext.fin a) (c : ℝ) :
+    logSumExp (Vec.of (fun i => x i + Ext.fin c)) = logSumExp x + Ext.fin c := by
+  have hadd : ∀ i, (x i + Ext.fin c ≠ Ext.nan) ∧ Ext.expR (x i + Ext.fin c) = Ext.expR (x i) * Real.exp c := by
+    intro i
+    cases h : x i with
+    | negInf =>
+      have e : (Ext.negInf : Ext ℝ) + Ext.fin c = Ext.negInf := rfl
+      exact ⟨by rw [e]; exact fun h' => (by cases h'), by rw [e]; simp [Ext.expR]⟩
+    | nan => exact absurd h (hx i)
+    | fin a => exact ⟨by rw [Ext.fin_add_fin]; exact fun h' => (by cases h'), by rw [Ext.fin_add_fin]; simp only [Ext.expR]; exact Real.exp_add a c⟩
+  obtain ⟨j, a, hj⟩ := hfin
+  have hx' : ∀ i, (Vec.of (fun i => x i + Ext.fin c)) i ≠ Ext.nan := fun i => by
+    simp only [Vec.of_apply]; exact (hadd i).1
+  have hfin' : ∃ i a, (Vec.of (fun i => x i + Ext.fin c)) i = Ext.fin a :=
+    ⟨j, a + c, by simp only [Vec.of_apply]; rw [hj, Ext.fin_add_fin]⟩
+  have hpos : 0 < ∑ i, Ext.expR (x i) := by
+    have hnn : ∀ i, 0 ≤ Ext.expR (x i) := by
+      intro i
+      cases h : x i with
+      | negInf => simp [Ext.expR]
+      | nan => simp [Ext.expR]
+      | fin a => simp only [Ext.expR]; exact (Real.exp_pos a).le
+    have hjpos : 0 < Ext.expR (x j) := by rw [hj]; simp only [Ext.expR]; exact Real.exp_pos _
+    exact lt_of_lt_of_le hjpos (Finset.single_le_sum (fun i _ => hnn i) (Finset.mem_univ j))
+  obtain ⟨e1, -⟩ := lse_neg_inf _ hx' hfin'
+  obtain ⟨e2, -⟩ := lse_neg_inf x hx ⟨j, a, hj⟩
+  rw [e1, e2, Ext.fin_add_fin]
+  congr 1
+  simp only [Vec.of_apply, (hadd _).2]
+  rw [← Finset.sum_mul, Real.log_mul hpos.ne' (Real.exp_pos _).ne', Real.log_exp]
+
+/-- non-vacuity of `lse_drop_lt`: `[0, −16]` with the second entry left out — the value drops from
+    `log(1 + e⁻¹⁶)` to `0` (a cut-off at 15 below the maximum changes the result) -/
+example : ∃ (x : Vec ℝ 2) (A : Finset (Fin 2)), A.Nonempty ∧ Aᶜ.Nonempty ∧ Real.log (∑ i ∈ A, Real.exp (x i)) = 0 ∧ 0 < logSumExp x := by
+  have hA : ({0} : Finset (Fin 2)).Nonempty := ⟨0, by simp⟩
+  have hAc : ({0} : Finset (Fin 2))ᶜ.Nonempty := ⟨(1 : Fin 2), by simp⟩
+  have h := (lse_drop_lt (Vec.of (fun i : Fin 2 => if i = 0 then (0 : ℝ) else -16)) {0} hA hAc).1
+  have h0 : Real.log (∑ i ∈ ({0} : Finset (Fin 2)), Real.exp ((Vec.of (fun i : Fin 2 => if i = 0 then (0 : ℝ) else -16)) i)) = 0 := by simp
+  exact ⟨_, _, hA, hAc, h0, by rw [h0] at h; exact h⟩
+
+/-- With `−∞` entries too the result does not depend on the order of the entries. -/
+theorem lse_neg_inf_perm {n : Nat} (x : Vec (Ext ℝ) (n + 1)) (hx : ∀ i, x i ≠ Ext.nan) (hfin : ∃ i a, x i = Ext.fin a)
+    (σ : Equiv.Perm (Fin (n + 1))) :
+    logSumExp (Vec.of (fun i => x (σ i))) = logSumExp x := by
+  obtain ⟨j, a, hj⟩ := hfin
+  have hx' : ∀ i, (Vec.of (fun i => x (σ i))) i ≠ Ext.nan := fun i => by simp only [Vec.of_apply]; exact hx _
+  have hfin' : ∃ i a, (Vec.of (fun i => x (σ i))) i = Ext.fin a := ⟨σ.symm j, a, by simp [hj]⟩
+  rw [(lse_neg_inf _ hx' hfin').1, (lse_neg_inf x hx ⟨j, a, hj⟩).1]
+  simp only [Vec.of_apply]
+  rw [Equiv.sum_comp σ (fun i => Ext.expR (x i))]
+
+/-- entrywise reciprocal: the inverse routine for 1×1 matrices -/
+noncomputable def recipInv : InvFn ℝ := fun _ A => Mat.of (fun i j => 1 / A i j)
+
+/-- **Witness** for the negative branch of `uvr_factor_signs` (d = k = 1, one 1×1 block):
+    `U = V = (2)`, `R = (−1)`: `S = U V + R = (3)` is positive definite although `R` is negative; the code
+    forms `det R = −1`, `det(I + V R⁻¹ U) = −3` and their product `3 = det S > 0`.  Taking the logarithm of
+    the factors separately is undefined here. -/
+theorem uvr_negative_factors_witness :
+    ∃ (inv : InvFn ℝ) (U : Mat ℝ (1 * 1) 1) (V : Mat ℝ 1 (1 * 1)) (R : RNoise ℝ 1 1),
+      (∀ i, InvOK inv (R.block i)) ∧ InvOK inv (uvrM inv U V R) ∧ (toM (assembleS U V R)).PosDef ∧
+      R.det = -1 ∧ Mat.detLU 1 (uvrM inv U V R) = -3 ∧
+      ∀ (b : Nat) (x : Mat ℝ (1 * 1) b) (m : Vec ℝ (1 * 1)), (uvrAlg inv x m U V R).detS = 3 := by
+  have : Subsingleton (Fin (1 * 1)) := ⟨fun a b => Fin.ext (by omega)⟩
+  let i0 : Fin (1 * 1) := ⟨0, by norm_num⟩
+  let U : Mat ℝ (1 * 1) 1 := Mat.of (fun _ _ => 2)
+  let V : Mat ℝ 1 (1 * 1) := Mat.of (fun _ _ => 2)
+  let R0 : Mat ℝ 1 1 := Mat.of (fun _ _ => -1)
+  let R : RNoise ℝ 1 1 := .shared R0
+  have hM : ∀ i j, (uvrM recipInv U V R) i j = -3 := by
+    intro i j
+    simp only [uvrM, Mat.add_apply, Mat.one_apply, Mat.mul_apply, mulInvR, Mat.eval_eq, Mat.of_apply, RNoise.invBlocks,
+      Vec.of_apply, recipInv, fsum_eq_sum, Fintype.sum_subsingleton _ i0, U, V, R, R0,
+      Subsingleton.elim i j, if_true]
+    norm_num
+  have hRdet : R.det = -1 := by
+    rw [RNoise_det_eq]
+    simp [RNoise.block, R, R0, toM]
+  have hMdet : Mat.detLU 1 (uvrM recipInv U V R) = -3 := by
+    rw [toM_detLU, Matrix.det_fin_one]; exact hM 0 0
+  have hinv1 : ∀ (A : Mat ℝ 1 1), A 0 0 ≠ 0 → InvOK recipInv A := by
+    intro A hA
+    unfold InvOK
+    ext i j
+    have hi : i = 0 := Subsingleton.elim _ _
+    have hj : j = 0 := Subsingleton.elim _ _
+    subst hi; subst hj
+    simp [Matrix.mul_apply, recipInv, toM, hA]
+  refine ⟨recipInv, U, V, R, fun i => hinv1 _ (by simp [RNoise.block, R, R0]), hinv1 _ (by rw [hM]; norm_num), ?_, hRdet, hMdet, ?_⟩
+  · refine Matrix.PosDef.of_dotProduct_mulVec_pos ?_ ?_
+    · ext i j
+      rw [Subsingleton.elim i j]
+      simp [Matrix.conjTranspose_apply]
+    · intro x hx
+      have hx0 : x i0 ≠ 0 := by
+        intro h; apply hx; funext i; rw [Subsingleton.elim i i0]; exact h
+      have hS : toM (assembleS U V R) i0 i0 = 3 := by
+        simp only [toM_apply, assembleS, Mat.add_apply, RNoise.full, RNoise.block, Mat.of_apply, U, V, R, R0]
+        rw [Mat.mul_apply, fsum_eq_sum, Fin.sum_univ_one]
+        simp only [Mat.of_apply]
+        norm_num
+      simp only [dotProduct, Matrix.mulVec, Fintype.sum_subsingleton _ i0, hS, Pi.star_apply, star_trivial]
+      have : 0 < x i0 * x i0 := mul_self_pos.mpr hx0
+      nlinarith
+  · intro b x m
+    simp only [uvrAlg, Mat.eval_eq]
+    show R.det * Mat.detLU 1 (uvrM recipInv U V R) = 3
+    rw [hRdet, hMdet]; norm_num
+
 end BFL
